@@ -20,6 +20,9 @@ mod c13;
 mod c15;
 mod c12;
 mod c17;
+mod exporter;
+mod c20;
+mod c19;
 
 use engine::Ctx;
 
@@ -110,6 +113,10 @@ fn main() {
         ("C12", Some(p)) => c12::replay(&ctx, p),
         ("C17", None) => c17::run(&ctx),
         ("C17", Some(p)) => c17::replay(&ctx, p),
+        ("C20", None) => c20::run(&ctx),
+        ("C20", Some(p)) => c20::replay(&ctx, p),
+        ("C19", None) => c19::run(&ctx),
+        ("C19", Some(p)) => c19::replay(&ctx, p),
         ("C16", None) => c16::run(&ctx),
         ("C16", Some(p)) => c16::replay(&ctx, p),
         _ => {
